@@ -9,7 +9,8 @@ Parts (DESIGN §2.4):
   3. behaviour       set(...) programs built with the REAL PyTeal for every documented way of assembling a
                      value (constants, run-time expressions, copies, member instances; nested), compiled with
                      compileTeal for versions 5..10, in the scratch-slot and the frame-variable back-ends,
-                     executed on the extracted AVM; logged bytes compared three ways:
+                     executed on the extracted AVM; the encoding (stored to scratch slot 255 and logged when the AVM's
+                     1024-byte log limit allows) compared three ways:
                        (i)   algosdk.abi.ABIType.from_string(str(type_spec)).encode(value)    [reference codec]
                        (ii)  Coq spec arc4_encode                                             [ABI/Spec.v]
                        (iii) Coq model of the generated code, 4096-byte cap                   [ABI/Encode.v]
